@@ -11,6 +11,7 @@ here (`PathAbort`, `Unsupported`) derive from BaseException.
 """
 from __future__ import annotations
 
+import os
 import sys
 import time as _time
 
@@ -151,6 +152,34 @@ def hash_str(s):
     return h
 
 
+CROSS_EVERY = int(os.environ.get("VERIF_CROSS_EVERY", "0") or 0)
+_cross_counter = [0]
+
+
+def cross_check(assertions, neg, z3_sat):
+    """second opinion: the same query (path condition AND NOT obligation) through SMT-LIB to the cvc5 binary"""
+    import subprocess
+    import tempfile
+
+    s2 = z3.Solver()
+    s2.add(assertions)
+    s2.add(neg)
+    txt = "(set-logic ALL)\n" + s2.to_smt2()
+    with tempfile.NamedTemporaryFile("w", suffix=".smt2", delete=True) as f:
+        f.write(txt)
+        f.flush()
+        try:
+            r = subprocess.run(["cvc5", "--lang", "smt2", "--tlimit", "20000", f.name], capture_output=True,
+                               text=True, timeout=40)
+        except Exception as e:
+            return "unknown", f"cvc5 failed: {e}"
+    out = r.stdout.strip().splitlines()
+    verdict = out[0] if out else "unknown"
+    if "(error" in r.stdout or verdict not in ("sat", "unsat"):
+        return "unknown", (r.stdout + r.stderr)[-200:]
+    return ("agree" if (verdict == "sat") == z3_sat else "disagree"), verdict
+
+
 class Ctx:
     """One execution path."""
 
@@ -170,6 +199,7 @@ class Ctx:
         self.env = {}  # name -> object, namespace for known-finding predicates
         self.known = known or []  # list of dict(id, property, harness, obligation, where)
         self.notes = {}
+        self.cross = []  # (obligation, outcome) of sampled second-opinion queries
 
     # ------------------------------------------------------------ solver
     def add(self, c):
@@ -327,7 +357,16 @@ class Ctx:
             return True
         claim = zb(claim)
         neg = z3.Not(claim)
-        if not self._check(neg):
+        holds = not self._check(neg)
+        if CROSS_EVERY:
+            # deterministic sample over (obligation, path): independent of how paths are spread over workers
+            h = hash_str(name) ^ (len(self.decisions) * 2654435761)
+            for _, v, fp in self.decisions[-6:]:
+                h = (h * 31 + fp + (1 if v is True else 0)) & 0xFFFFFFFF
+            h = ((h * 2654435761) & 0xFFFFFFFF) >> 8
+            if h % CROSS_EVERY == 0:
+                self.cross.append((name,) + cross_check(self.solver.assertions(), neg, not holds))
+        if holds:
             self.results.append((name, "ok"))
             return True
         # the obligation fails on this path; split by known findings
